@@ -432,6 +432,11 @@ func (t InclusiveRangeStaticType) Equal(other StaticType) bool {
 		return false
 	}
 
+	// The element type is nil for the base type (see BaseType)
+	if t.ElementType == nil || otherRangeType.ElementType == nil {
+		return t.ElementType == nil && otherRangeType.ElementType == nil
+	}
+
 	return t.ElementType.Equal(otherRangeType.ElementType)
 }
 
